@@ -133,7 +133,8 @@ def graph_to_numpy(causal_graph):
     numpy_graph = np.zeros((n_nodes, n_nodes))
     for edge_type, graph in causal_graph.get_graphs().items():
         # convert internal graph to a numpy array
-        graph_arr = nx.to_numpy_array(graph, nodelist=node_list)
+        # weight=None: an edge is an edge whatever its "weight" attribute is (a weight of 0 must not hide it)
+        graph_arr = nx.to_numpy_array(graph, nodelist=node_list, weight=None)
         graph_arr[graph_arr != 0] = EDGE_TO_VALUE_MAPPING[edge_type]
         numpy_graph += graph_arr
     return numpy_graph
